@@ -10,9 +10,15 @@ UNITS = [dict(
     budget={'quick': 280, 'thorough': 2600},
     validate=['arguments', 'arguments_many', 'split'],
 )]
+UNITS.append(dict(
+    name='exec', harness='harness/c20_args.cpp', sources=SRC, native=False,
+    defines={'quick': {}, 'thorough': {}}, entries=['exec_args'],
+    opts={'all': {'unwind': 64, 'max_instr': 300000, 'check_leaks': False, 'overrides': {'vfork': 'vf_vfork', 'execvpe': 'vf_execvpe'}}},
+    split={'quick': 4, 'thorough': 4}, budget={'quick': 120, 'thorough': 120}, validate=[],
+))
 BOUNDS = {
-    'quick': 'argument vectors of <= 2 strings (first <= 5 characters, second <= 2) over {-,=,a,b,x} in exactly sized objects, and of <= 4 strings of <= 2 characters each, option table {a: flag/--aa, b: required argument/--bb, --xx: optional argument} vs. a getopt_long-style reference ("--flag=value" excluded as unspecified); command lines of <= 5 characters over {space, ", \\\\, a} vs. a reference splitter; termination via the instruction budget',
+    'quick': 'argument vectors of <= 2 strings (first <= 5 characters, second <= 2) over {-,=,a,b,x} in exactly sized objects, and of <= 4 strings of <= 2 characters each, option table {a: flag/--aa, b: required argument/--bb, --xx: optional argument} vs. a getopt_long-style reference ("--flag=value" excluded as unspecified); command lines of <= 5 characters over {space, ", \\\\, a} vs. a reference splitter; termination via the instruction budget; exec boundary: the three forms of Process::open (argc/argv with and without terminating null, List<String>, command line with a quoted word) with and without an environment map, vfork()/execvpe() stubbed: executable, argument vector and environment that reach execvpe are exactly the ones given',
     'thorough': 'argument vectors of <= 3 strings (first <= 6 characters, others <= 3) and of <= 5 strings of <= 2 characters; command lines <= 7 characters',
 }
-OUTSIDE = 'exec/argv/environment/pipes/exit codes of real child processes (kernel behaviour: not applicable to solver-based checking, DESIGN section 4); longer argument vectors'
+OUTSIDE = 'what the kernel does after execvpe(): pipes, end-of-file on redirected streams, exit codes of real child processes, descriptor inheritance (kernel behaviour: not applicable to solver-based checking, DESIGN section 4); longer argument vectors'
 ASSUMPTIONS = ['clang++-14 -O1 IR of src/Process.cpp (Arguments::read/nextChar, Private::splitCommandLine only are executed), src/String.cpp, src/Memory.cpp']
